@@ -45,6 +45,15 @@ INLINE_CASES: list[tuple[str, dict[str, str], str, str, list[str]]] = [
     ("argument-kinds", {},
      "macro kinds($a, $b, $c, $d) { k($a, $b, $c, $d); with (actor $a) { w($b); } $VAR = $a; }\ndef 0 { ~kinds(7, 'text', Position<'m', 1, 2.5>, 1.5); end; }",
      "def 0 { k(7, 'text', Position<'m', 1, 2.5>, 1.5); with (actor 7) { w('text'); } $VAR = 7; end; }", []),
+    ("caller-first-calls-nested-in-every-block-kind", {},
+     "macro outer($v) { o1(); if ($v == 1) { ~in1($v, 1); } elseif ($v == 2) { ~in2($v, 2); } else { ~in3($v, 3); } switch ($v) { case 1: ~in4($v, 4); break; case 2: case 3: ~in5($v, 5); default: ~in6($v, 6); } forever { ~in7($v, 7); break_loop; } while ($v < 3) { ~in8($v, 8); } for ($I = 0; $I < 2; $I += 1;) { ~in9($v, 9); } if ($v == 4) { while ($v < 5) { for ($J = 0; $J < 3; $J += 1;) { switch ($v) { case 7: forever { ~in10($v, 10); break_loop; } } } } } o2(); }\n"
+     "macro in10($a, $b) { c10($a, $b); }\nmacro in9($a, $b) { c9($a, $b); }\nmacro in8($a, $b) { c8($a, $b); }\nmacro in7($a, $b) { c7($a, $b); }\nmacro in6($a, $b) { c6($a, $b); }\nmacro in5($a, $b) { c5($a, $b); }\nmacro in4($a, $b) { c4($a, $b); }\nmacro in3($a, $b) { c3($a, $b); }\nmacro in2($a, $b) { c2($a, $b); }\nmacro in1($a, $b) { c1($a, $b); }\n"
+     "def 0 { ~outer($A); end; }",
+     "def 0 { o1(); if ($A == 1) { c1($A, 1); } elseif ($A == 2) { c2($A, 2); } else { c3($A, 3); } switch ($A) { case 1: c4($A, 4); break; case 2: case 3: c5($A, 5); default: c6($A, 6); } forever { c7($A, 7); break_loop; } while ($A < 3) { c8($A, 8); } for ($I = 0; $I < 2; $I += 1;) { c9($A, 9); } if ($A == 4) { while ($A < 5) { for ($J = 0; $J < 3; $J += 1;) { switch ($A) { case 7: forever { c10($A, 10); break_loop; } } } } } o2(); end; }", []),
+    ("callers-first-one-per-block-kind", {},
+     "macro o1($v) { b1(); if ($v == 1) { ~in1($v, 1); } e1(); }\nmacro o2($v) { b2(); if ($v == 1) { x(); } elseif ($v == 2) { ~in2($v, 2); } e2(); }\nmacro o3($v) { b3(); if ($v == 1) { x(); } else { ~in3($v, 3); } e3(); }\nmacro o4($v) { b4(); switch ($v) { case 1: ~in4($v, 4); break; default: x(); } e4(); }\nmacro o5($v) { b5(); switch ($v) { case 1: x(); break; default: ~in5($v, 5); } e5(); }\nmacro o6($v) { b6(); forever { ~in6($v, 6); break_loop; } e6(); }\nmacro o7($v) { b7(); while ($v < 3) { ~in7($v, 7); } e7(); }\nmacro o8($v) { b8(); for ($I = 0; $I < 2; $I += 1;) { ~in8($v, 8); } e8(); }\nmacro o9($v) { b9(); if ($v == 4) { while ($v < 5) { for ($J = 0; $J < 3; $J += 1;) { switch ($v) { case 7: forever { ~in9($v, 9); break_loop; } } } } } e9(); }\nmacro in9($a, $b) { c9($a, $b); }\nmacro in8($a, $b) { c8($a, $b); }\nmacro in7($a, $b) { c7($a, $b); }\nmacro in6($a, $b) { c6($a, $b); }\nmacro in5($a, $b) { c5($a, $b); }\nmacro in4($a, $b) { c4($a, $b); }\nmacro in3($a, $b) { c3($a, $b); }\nmacro in2($a, $b) { c2($a, $b); }\nmacro in1($a, $b) { c1($a, $b); }\n"
+     "def 0 { ~o1($A); ~o2($A); ~o3($A); ~o4($A); ~o5($A); ~o6($A); ~o7($A); ~o8($A); ~o9($A); end; }",
+     "def 0 { b1(); if ($A == 1) { c1($A, 1); } e1(); b2(); if ($A == 1) { x(); } elseif ($A == 2) { c2($A, 2); } e2(); b3(); if ($A == 1) { x(); } else { c3($A, 3); } e3(); b4(); switch ($A) { case 1: c4($A, 4); break; default: x(); } e4(); b5(); switch ($A) { case 1: x(); break; default: c5($A, 5); } e5(); b6(); forever { c6($A, 6); break_loop; } e6(); b7(); while ($A < 3) { c7($A, 7); } e7(); b8(); for ($I = 0; $I < 2; $I += 1;) { c8($A, 8); } e8(); b9(); if ($A == 4) { while ($A < 5) { for ($J = 0; $J < 3; $J += 1;) { switch ($A) { case 7: forever { c9($A, 9); break_loop; } } } } } e9(); end; }", []),
     ("nested-files", {"/proj/lib/m.exps": 'import "./inner.exps";\nmacro outer($a, $b) { x($a); ~inner($b, 5); if ($V == 1) { return; } y($b); }\n',
                       "/proj/lib/inner.exps": "macro inner($p, $q) { i1($p); i2($q); }\n"},
      'import "./lib/m.exps";\nmacro local($z) { l($z); }\ndef 0 { a(); ~outer(1, CONST); ~local(3); ~outer(2, 4); end; }',
@@ -175,7 +184,34 @@ def reject_projects(chk: Check, ctx: Any, rule: str, P: Any = None) -> int:
                        f"project `{name}` ({what}) fails with {e.cls_name} ({e.msg}) instead of SsbCompilerError, ValueError or ParseError", f"rejected: {e.cls_name}")
         except (Unsupported, AnalysisError) as e:
             chk.unknown(rule, key, anchor, f"project `{name}`: abstract interpretation left the modelled subset: {e}")
+    # the same on a compiler object that has compiled another program before: what that program defined or imported is not known to this one
+    for name, main, what in REJECT_AFTER_CASES:
+        key = f"reject-after-valid-program:{name}"
+        n += 1
+        try:
+            c = P.compile_exps(REJECT_AFTER_FIRST[1], "/proj/main.exps", REJECT_AFTER_FIRST[0])
+        except (PyExc, Unsupported, AnalysisError) as e:
+            chk.unknown(rule, key, anchor, f"the valid first program of the history does not compile abstractly: {e}")
+            continue
+        try:
+            P.compile_exps(main, "/proj/main.exps", REJECT_AFTER_FIRST[0], compiler=c)
+            chk.violation(rule, key, anchor, f"on a compiler object that compiled {REJECT_AFTER_FIRST[1]!r} before, the program {main!r} ({what}) compiles and yields output")
+        except PyExc as e:
+            chk.decide(rule, key, e.cls_name in ("SsbCompilerError", "ValueError", "ParseError"), anchor,
+                       f"second program `{name}` ({what}) fails with {e.cls_name} ({e.msg}) instead of SsbCompilerError, ValueError or ParseError", f"rejected: {e.cls_name}")
+        except (Unsupported, AnalysisError) as e:
+            chk.unknown(rule, key, anchor, f"second program `{name}`: abstract interpretation left the modelled subset: {e}")
     return n
+
+
+REJECT_AFTER_FIRST = ({"/proj/lib.exps": 'import "./deep.exps";\nmacro from_lib($v) { fl($v); ~from_deep(); }\n', "/proj/deep.exps": "macro from_deep() { fd(); }\n"},
+                      'import "./lib.exps";\nmacro local($v) { lc($v); }\ndef 0 { a(); ~local(1); ~from_lib(2); §here; b(); jump @here; }\n')
+REJECT_AFTER_CASES: list[tuple[str, str, str]] = [
+    ("macro-of-the-earlier-program", "def 0 { a(); ~local(1); end; }", "call of a macro that only the earlier program defined"),
+    ("macro-of-the-earlier-import", "def 0 { a(); ~from_lib(1); end; }", "call of a macro from a file that only the earlier program imported"),
+    ("macro-of-the-earlier-transitive-import", "macro mine() { ~from_deep(); }\ndef 0 { ~mine(); end; }", "a macro calling a macro that only the earlier program imported"),
+    ("label-of-the-earlier-program", "def 0 { a(); jump @here; }", "jump to a label that only the earlier program defined"),
+]
 
 
 # ------------------------------------------------------------------------------------------------ C08: entries of expanded ops
@@ -194,8 +230,12 @@ MAP_PROJECT = {
     "/proj/other/unused.exps": "macro not_called() { nope(); }\n",
     "/proj/wrap/wrap.exps": 'import "./leaf/leaf.exps";\nmacro wrapped() {\n    ~leafm();\n    own_op();\n}\n',
     "/proj/wrap/leaf/leaf.exps": "macro leafm() {\n    lm1();\n    if ($V == 3) { lm2(); }\n    return;\n}\n",
+    # blocks that are a lone jump (folded into the header) and an operation used as a condition: op numbers and emitted ops must still agree
+    "/proj/lib/guard.exps": "macro guard($g) {\n    g_first($g);\n    if ($g == 1) { jump @g_out; }\n    g_work();\n    §g_out;\n    g_last();\n}\n"
+                            "macro probe($q) {\n    q_first($q);\n    if (BranchExecuteSub($q)) {\n        q_inner();\n    }\n    q_last();\n}\n"
+                            "macro both($x) {\n    bo_first();\n    ~guard($x);\n    bo_mid();\n    ~probe($x);\n    bo_last();\n}\n",
 }
-MAP_MAIN = ('import "./lib/m.exps";\nimport "./other/unused.exps";\nimport "./wrap/wrap.exps";\n'
+MAP_MAIN = ('import "./lib/m.exps";\nimport "./other/unused.exps";\nimport "./wrap/wrap.exps";\nimport "./lib/guard.exps";\n'
             "macro local($z) { lc($z); }\n"
             "def 0 {\n"
             "    a();\n"
@@ -204,6 +244,10 @@ MAP_MAIN = ('import "./lib/m.exps";\nimport "./other/unused.exps";\nimport "./wr
             "    ~sibling();\n"
             "    ~wrapped(); after_wrapped();\n"
             "    b(Position<'direct', 3, 4>);\n"
+            "    ~guard($A); r_c();\n"
+            "    ~probe($B);\n"
+            "    r_d();\n"
+            "    ~both(3); r_e();\n"
             "    end;\n"
             "}\n")
 
